@@ -123,7 +123,7 @@ static void solve_rank(int r, const Sys &s, const Part &p, const boost::property
     catch (const std::exception &e) { o.exc[r] = e.what(); }
 }
 
-static std::string solve_once(const Sys &s, const Part &p, const boost::property_tree::ptree &prm, const Env &e, bool expect_converge,
+static std::string solve_once(const Sys &s, const Part &p, const boost::property_tree::ptree &prm, const Env &e, bool expect_converge, int maxit,
                               const std::vector<int> *prefix = nullptr, bool explore = false, SolveOut *keep = nullptr) {
     int k = (int)p.size() - 1;
     std::vector<double> f(s.n); for (int i = 0; i < s.n; ++i) f[i] = 1.0 + 0.25 * (i % 5);
@@ -143,7 +143,7 @@ static std::string solve_once(const Sys &s, const Part &p, const boost::property
     // recursive residual vs true residual: C01 bound 32 u (iters+2) sqrt(n) kappa (1 + ||A|| ||x|| / ||f||)
     double bound = 32 * 1.1102230246251565e-16 * (o.it[0] + 2) * std::sqrt((double)s.n) * s.kappa * (1 + s.normA * (double)std::sqrt(nx / nf));
     if (!(std::abs(o.res[0] - trel) <= bound + 1e-12 * o.res[0])) return vf::KS() << "reported residual " << o.res[0] << " but assembled solution has true relative residual " << trel << " (bound " << bound << ", iters " << o.it[0] << ")";
-    if (o.it[0] > 100) return vf::KS() << "iteration count " << o.it[0] << " exceeds maxiter 100";
+    if ((int)o.it[0] > maxit + 3) return vf::KS() << "iteration count " << o.it[0] << " exceeds maxiter " << maxit << " (+L-1)";
     if (expect_converge && !(o.res[0] < 1e-8)) return vf::KS() << "did not converge on an SPD M-matrix: iters " << o.it[0] << " residual " << o.res[0];
     return "";
 }
@@ -170,13 +170,15 @@ static void run_solve() {
             prm.put("precond.class", "amg"); prm.put("precond.coarsening.type", c); prm.put("precond.relax.type", r);
             prm.put("precond.coarse_enough", std::max(2, s.n / 6));
             if (repart) { prm.put("precond.repart.enable", true); prm.put("precond.repart.min_per_proc", 4); prm.put("precond.repart.shrink_ratio", 2); }
-            prm.put("solver.type", sv); prm.put("solver.tol", 1e-8); prm.put("solver.maxiter", 100);
+            // the stationary Richardson iteration converges at the rate of the cycle's contraction factor (C01): it is given a larger budget
+            const int maxit = std::string(sv) == "richardson" ? 1000 : 100;
+            prm.put("solver.type", sv); prm.put("solver.tol", 1e-8); prm.put("solver.maxiter", maxit);
             bool expect = std::string(sv) != "richardson" || true;
             // CG needs a symmetric preconditioner: spai1 / ilut smoothing is not symmetric -> convergence not demanded there (C01 finding F27)
             if (std::string(sv) == "cg" && (std::string(r) == "spai1" || std::string(r) == "ilut")) expect = false;
             bool bad = false;
             for (auto &e : ENVS) {
-                std::string v = solve_once(s, p, prm, e, expect);
+                std::string v = solve_once(s, p, prm, e, expect, maxit);
                 vf::count("executions"); vf::S().transitions += 1;
                 if (!v.empty()) { vf::fail(v.compare(0, 8, "DEADLOCK") == 0 ? "dsolve.deadlock" : "dsolve.fixed_schedules", key, vf::KS() << "schedule " << e.name << ": " << v); bad = true; break; }
                 if (&e == &ENVS[0] && k == 1) break;     // a single rank has one schedule
@@ -202,7 +204,7 @@ static void run_solve() {
                 std::string bad; std::vector<int> badc;
                 auto st = vs::explore([&]() -> uint64_t {
                     std::vector<int> pf = vs::cfg().prefix;
-                    std::string v = solve_once(s, parts[pi], prm, ENVS[0], true, &pf, true);
+                    std::string v = solve_once(s, parts[pi], prm, ENVS[0], true, 100, &pf, true);
                     if (!v.empty() && bad.empty()) bad = v;
                     return vf::hstr(v);
                 }, 1, 60000, [&](const std::vector<int> &ch, uint64_t) { if (!bad.empty() && badc.empty()) badc = ch; }, true);
@@ -210,7 +212,7 @@ static void run_solve() {
                 vf::nontrivial(vf::hstr(key));
                 if (st.capped) vf::cap("delay-bounded DFS hit the execution cap (60000) on a solve scenario");
                 if (!bad.empty()) {
-                    int same = 0; for (int q = 0; q < 2; ++q) { vs::begin_execution(); if (solve_once(s, parts[pi], prm, ENVS[0], true, &badc, true) == bad) ++same; }
+                    int same = 0; for (int q = 0; q < 2; ++q) { vs::begin_execution(); if (solve_once(s, parts[pi], prm, ENVS[0], true, 100, &badc, true) == bad) ++same; }
                     vf::S().traces_validated += same;
                     vf::KS ks; for (size_t i = 0; i < badc.size(); ++i) ks << (i ? "," : "") << badc[i];
                     vf::fail("dsolve.explored_schedule", key, vf::KS() << bad << " under choice list [" << ks.str() << "] (replayed " << same << "/2)");
